@@ -8,6 +8,8 @@ mod c03;
 mod c07;
 mod c11;
 mod c12;
+mod svalue;
+mod c13;
 mod schema;
 mod c05;
 mod c06;
@@ -63,6 +65,7 @@ fn main() {
         "c07" => c07::run(&args),
         "c11" => c11::run(&args),
         "c12" => c12::run(&args),
+        "c13" => c13::run(&args),
         "c05" => c05::run(&args),
         "c06" => c06::run(&args),
         "c06b64" => c06::run_b64(&args),
